@@ -114,10 +114,12 @@ fn build() -> Result<Fixture, String> {
         let (state, _) = engine::commit_preparation_with_funding(&net, tip, &mut adapter, usk.orchard(), &plan, &mut rng, ReplanThreshold::DEFAULT).map_err(|e| format!("commit: {e:?}"))?;
         state
     };
-    let store = |st: &mut zcash_client_backend::data_api::testing::TestState<BlockCache, zcash_client_sqlite::testing::db::TestDb, LocalNetwork>| {
-        PoolMigrations::for_account(net, super::clock(), st.wallet_mut().conn_mut(), account_id).map_err(|e| format!("for_account: {e:?}"))
-    };
-    store(&mut st)?.replace_migration(&state).map_err(|e| format!("persist: {e:?}"))?;
+    type St = zcash_client_backend::data_api::testing::TestState<BlockCache, zcash_client_sqlite::testing::db::TestDb, LocalNetwork>;
+    type Store<'a> = PoolMigrations<&'a mut rusqlite::Connection, LocalNetwork, zcash_client_sqlite::util::testing::FixedClock>;
+    fn open<'a>(st: &'a mut St, net: LocalNetwork, account: AccountUuid) -> Result<Store<'a>, String> {
+        PoolMigrations::for_account(net, super::clock(), st.wallet_mut().conn_mut(), account).map_err(|e| format!("for_account: {e:?}"))
+    }
+    open(&mut st, net, account_id)?.replace_migration(&state).map_err(|e| format!("persist: {e:?}"))?;
 
     // drive until the first proof is named
     let cfg = AdvanceConfig::new(ReorgSettleDepth::new(10));
@@ -125,7 +127,7 @@ fn build() -> Result<Fixture, String> {
     let (id, kind) = loop {
         let target = st.wallet().chain_height().map_err(|e| format!("{e:?}"))?.ok_or("no chain tip")? + 1;
         let mut drive_rng = ChaCha8Rng::seed_from_u64(0x318);
-        let adv = satisfiability::advance_migration(&mut store(&mut st)?, &mut state, DuenessTargets::at(target), &cfg, &mut drive_rng).map_err(|e| format!("advance_migration: {e:?}"))?;
+        let adv = satisfiability::advance_migration(&mut open(&mut st, net, account_id)?, &mut state, DuenessTargets::at(target), &cfg, &mut drive_rng).map_err(|e| format!("advance_migration: {e:?}"))?;
         match adv.step() {
             AdvanceStep::Prove { transactions } => break (transactions[0].id(), transactions[0].kind()),
             AdvanceStep::Waiting => {
@@ -151,11 +153,11 @@ fn build() -> Result<Fixture, String> {
         engine::prove_preparation(&mut prover, &mut state, id, anchor).map_err(|e| format!("prove_preparation: {e:?}"))?
     };
     match outcome {
-        ProveOutcome::Proved(proven) => store(&mut st)?.store_proved_transaction(&mut state, proven).map_err(|e| format!("store_proved_transaction: {e:?}"))?,
+        ProveOutcome::Proved(proven) => open(&mut st, net, account_id)?.store_proved_transaction(&mut state, proven).map_err(|e| format!("store_proved_transaction: {e:?}"))?,
         ProveOutcome::NotYetProvable => return Err("the preparation is not yet provable".into()),
         ProveOutcome::MarkedUnsatisfiable { .. } => return Err("the preparation was marked unsatisfiable".into()),
     }
-    let stored = store(&mut st)?.get_migration().map_err(|e| format!("{e:?}"))?.ok_or("the store holds no pending migration")?;
+    let stored = open(&mut st, net, account_id)?.get_migration().map_err(|e| format!("{e:?}"))?.ok_or("the store holds no pending migration")?;
     if stored != state {
         return Err("the stored migration differs from the driven state".into());
     }
